@@ -9,20 +9,20 @@ verus! {
 //@@ include prelude/storeabs.rs
 
 pub open spec fn pid_query(q: Query, pid: Seq<char>) -> bool {
-    q.conds@.len() == 1 && q.conds@[0].r#type == CondType::And && q.conds@[0].conds@.len() == 1
+    q.conds@.len() == 1 && q.conds@[0].r#type == CondType::And && q.conds@[0].conds@.len() == 1 && q.limit == 100000
     && q.conds@[0].conds@[0].op == ExprOp::EQ && q.conds@[0].conds@[0].key@ == "pid"@ && q.conds@[0].conds@[0].value@ == JsonV::Str(pid)
 }
-pub proof fn lemma_pid_query(q: Query, pid: Seq<char>, t: data::Task)
+pub open spec fn task_of(pid: Seq<char>) -> spec_fn(data::Task) -> bool { |t: data::Task| t.pid@ == pid }
+pub proof fn lemma_pid_query(q: Query, pid: Seq<char>)
     requires pid_query(q, pid)
-    ensures query_holds(q, t) <==> t.pid@ == pid
+    ensures forall|t: data::Task| #[trigger] query_holds(q, t) <==> task_of(pid)(t)
 {
-    assert("pid"@ != "id"@) by { assert("pid"@.len() != "id"@.len()) by { reveal_strlit("pid"); reveal_strlit("id"); } }
-    if t.pid@ == pid {
-        assert(cond_holds(q.conds@[0], t));
-    }
-    if query_holds(q, t) {
-        assert(cond_holds(q.conds@[0], t));
-        assert(expr_holds(q.conds@[0].conds@[0].op, t.field(q.conds@[0].conds@[0].key@), q.conds@[0].conds@[0].value@));
+    assert("pid"@ != "id"@) by { reveal_strlit("pid"); reveal_strlit("id"); assert("pid"@.len() != "id"@.len()); }
+    assert forall|t: data::Task| #[trigger] query_holds(q, t) <==> task_of(pid)(t) by {
+        reveal(query_holds); reveal(cond_holds);
+        let c = q.conds@[0];
+        if t.pid@ == pid { assert(cond_holds(c, t)); }
+        if query_holds(q, t) { assert(cond_holds(c, t)); assert(expr_holds(c.conds@[0].op, t.field(c.conds@[0].key@), c.conds@[0].value@)); }
     }
 }
 
@@ -33,7 +33,7 @@ impl Store {
     requires
         old(st).wf(),
         // the default query limit (100000) must cover the tasks of one process -- listed assumption
-        old(st).tasks.dom().filter(|id: Seq<char>| old(st).tasks[id].pid@ == pid@).len() <= 100000,
+        sel_count(old(st).tasks, task_of(pid@)) <= 100000,
     ensures
         //# T3-tasks-removed
         ret is Ok ==> forall|id: Seq<char>| final(st).tasks.dom().contains(id) <==> (old(st).tasks.dom().contains(id) && old(st).tasks[id].pid@ != pid@),
@@ -50,27 +50,24 @@ impl Store {
         //# T3-no-new-rows
         forall|id: Seq<char>| final(st).tasks.dom().contains(id) ==> old(st).tasks.dom().contains(id) && final(st).tasks[id] == old(st).tasks[id],
 //@@ proof at=beforeloop1
-        proof { assert(pid_query(q, pid@)); assert forall|t: data::Task| query_holds(q, t) <==> t.pid@ == pid@ by { lemma_pid_query(q, pid@, t); }
-                assert(matching(old(st).tasks, q) =~= old(st).tasks.dom().filter(|id: Seq<char>| old(st).tasks[id].pid@ == pid@)); }
-//@@ loop 1 iter=it
+        proof { assert(pid_query(q, pid@)); lemma_pid_query(q, pid@); lemma_query_rows(old(st).tasks, q, tasks.rows@, task_of(pid@)); }
+//@@ loop 1
         invariant
             //# T3-inv-frame
             st.procs == old(st).procs && st.messages == old(st).messages && st.models == old(st).models && st.events == old(st).events,
             //# T3-inv-rows
-            query_result_ok(old(st).tasks, q, tasks.rows@) && old(st).wf() && pid_query(q, pid@),
+            sel_sound(old(st).tasks, __v1@, task_of(pid@)) && sel_complete(old(st).tasks, __v1@, task_of(pid@)) && old(st).wf(),
             //# T3-inv-kept
             forall|id: Seq<char>| #[trigger] st.tasks.dom().contains(id) <==> (old(st).tasks.dom().contains(id)
-                && !(exists|j: int| 0 <= j < it.index@ && (#[trigger] tasks.rows@[j]).id@ == id)),
+                && !(exists|j: int| 0 <= j < __i1 && (#[trigger] __v1@[j]).id@ == id)),
             //# T3-inv-values
             forall|id: Seq<char>| st.tasks.dom().contains(id) ==> #[trigger] st.tasks[id] == old(st).tasks[id],
 //@@ proof at=afterloop1
         proof {
             let rows = tasks.rows@;
-            assert forall|t: data::Task| query_holds(q, t) <==> t.pid@ == pid@ by { lemma_pid_query(q, pid@, t); }
-            assert(matching(old(st).tasks, q) =~= old(st).tasks.dom().filter(|id: Seq<char>| old(st).tasks[id].pid@ == pid@));
             assert forall|id: Seq<char>| st.tasks.dom().contains(id) <==> (old(st).tasks.dom().contains(id) && old(st).tasks[id].pid@ != pid@) by {
                 if old(st).tasks.dom().contains(id) && old(st).tasks[id].pid@ == pid@ {
-                    assert(matching(old(st).tasks, q).contains(id));
+                    assert(task_of(pid@)(old(st).tasks[id]));
                     let j = choose|j: int| 0 <= j < rows.len() && (#[trigger] rows[j]).rid() == id;
                     assert(rows[j].id@ == id);
                 }
